@@ -13,7 +13,7 @@ pub struct C09;
 
 fn n_cases(tier: Tier) -> u64 {
     match tier {
-        Tier::Quick => 100_000,
+        Tier::Quick => 200_000,
         Tier::Thorough => 3_000_000,
     }
 }
